@@ -26,7 +26,7 @@ ASSUMPTIONS = [
     "observable state is vlib.snapshot's snapshot plus the bytes B.read() produces",
 ]
 REQUIRED_LABELS = {
-    "quick": ["pair_same_recipe", "pair_other_type", "pair_clone", "pair_load_twice", "project_pair", "inplace_list_mutation", "reverse_direction", "save_load_a", "nested_mutation", "bystander_legacy_sampler", "bystander_fixture", "pair_deepcopy"],
+    "quick": ["pair_same_recipe", "pair_other_type", "pair_clone", "pair_load_twice", "project_pair", "inplace_list_mutation", "reverse_direction", "save_load_a", "nested_mutation", "bystander_legacy_sampler", "bystander_fixture", "pair_deepcopy", "clone_of_embedded_project_edited"],
     "thorough": ["pair_same_recipe", "pair_other_type", "pair_clone", "pair_load_twice", "project_pair", "inplace_list_mutation", "reverse_direction", "save_load_a"]
     + ["type_" + t for t in build.attachable_types()],
 }
@@ -285,6 +285,34 @@ def run_case(ctx, case):
             if a1 != a0:
                 d = snapshot.diff(a0[0], a1[0])
                 raise PropertyViolation("C17.leak.reverse", "mutation %r of the clone changed the original: %r" % (e[:5], d[:3]), key="C17.leak:reverse")
+    # a MetaModule's embedded project is itself a Project: cloning *it* and editing the clone - in
+    # particular the controllers the MetaModule's mappings name, in either index convention - leaves
+    # the MetaModule and its project alone
+    if type(A).__name__ == "Synth" and type(A.module).__name__ == "MetaModule" and how in ("same_recipe", "clone", "deepcopy", "other"):
+        mm = A.module
+        inner_clone = mm.project.clone()
+        by_mtype = specmodel.by_mtype()
+        a_before = observe(A)
+        n_edits = 0
+        for mp in mm.mappings.values[:12]:
+            for number in (mp.controller, mp.controller + 1):
+                if not (0 < mp.module < len(inner_clone.modules)) or inner_clone.modules[mp.module] is None:
+                    continue
+                target = inner_clone.modules[mp.module]
+                mt = by_mtype.get(target.mtype)
+                if mt is None or not (1 <= number <= len(mt.controllers)):
+                    continue
+                c = mt.controllers[number - 1]
+                if c.kind not in ("range", "compact", "no_offset"):
+                    continue
+                cur = getattr(target, c.name)
+                setattr(target, c.name, c.max if cur != c.max else c.min)
+                n_edits += 1
+        if n_edits:
+            labels.add("clone_of_embedded_project_edited")
+            if observe(A) != a_before:
+                d = snapshot.diff(a_before[0], snapshot.snap(A))
+                raise PropertyViolation("C17.leak.embedded_project_clone", "editing a clone of a MetaModule's embedded project changed the MetaModule: %r" % (d[:3],), key="C17.leak:embedded_project_clone")
     if bystander is not None:
         labels.add("bystander_" + case["bystander"].split(":")[0])
         clone_of(A)  # one more way of loading while the bystander is alive
